@@ -60,9 +60,9 @@ func (p Pkt) Equal(q Pkt) bool {
 	return p.Type == q.Type && p.Binary == q.Binary && bytes.Equal(p.Data, q.Data)
 }
 
-func msgT(s string) Pkt  { return Pkt{Type: tMessage, Data: []byte(s)} }
-func msgB(b []byte) Pkt  { return Pkt{Type: tMessage, Data: b, Binary: true} }
-func ctl(t byte) Pkt     { return Pkt{Type: t} }
+func msgT(s string) Pkt         { return Pkt{Type: tMessage, Data: []byte(s)} }
+func msgB(b []byte) Pkt         { return Pkt{Type: tMessage, Data: b, Binary: true} }
+func ctl(t byte) Pkt            { return Pkt{Type: t} }
 func ctlD(t byte, s string) Pkt { return Pkt{Type: t, Data: []byte(s)} }
 
 func utf16Len(s []byte) int {
@@ -241,9 +241,10 @@ func decPayloadV3Text(b []byte) ([]Pkt, error) {
 }
 
 // rev 3 binary payload: per packet
-//   string: 0x00 <decimal digits of length, one per byte, value 0..9> 0xff <type digit><UTF-8 data>
-//           where length = 1 + number of UTF-8 bytes (each byte is one "character")
-//   binary: 0x01 <digits of 1+len(data)> 0xff <type byte 0..6><data>
+//
+//	string: 0x00 <decimal digits of length, one per byte, value 0..9> 0xff <type digit><UTF-8 data>
+//	        where length = 1 + number of UTF-8 bytes (each byte is one "character")
+//	binary: 0x01 <digits of 1+len(data)> 0xff <type byte 0..6><data>
 func encPayloadV3Binary(ps []Pkt) []byte {
 	var out []byte
 	for _, p := range ps {
